@@ -187,6 +187,24 @@ def _check_comb(case):
                         bad.append(f"with_defaults-fills-{q}: default {dv!r} result {got!r}")
             if recv.with_defaults(None) != recv:
                 bad.append("with_defaults(None) != self")
+            # the same combination when the receiver is only known at run time (resources given as a callable):
+            # maybe_with_defaults(callable, defaults) returns a callable whose result obeys the same rule
+            from pipefunc.resources import Resources
+            delayed = Resources.maybe_with_defaults(lambda kw, _r=copy.deepcopy(recv): _r, dflt)
+            try:
+                res2 = delayed({}) if callable(delayed) else delayed
+            except ValueError:
+                res2 = None
+            if (res is None) != (res2 is None):
+                bad.append(f"with_defaults through a callable {'raised' if res2 is None else 'did not raise'} although the "
+                           f"direct combination {'raised' if res is None else 'did not raise'}")
+            elif res2 is not None:
+                for q in QUANT:
+                    rv, dv, got = getattr(recv, q), getattr(dflt, q), getattr(res2, q)
+                    if rv is not None and got != rv:
+                        bad.append(f"with_defaults-through-a-callable-keeps-{q}: receiver {rv!r} result {got!r}")
+                    if rv is None and got != dv:
+                        bad.append(f"with_defaults-through-a-callable-fills-{q}: default {dv!r} result {got!r}")
         elif kind == "update":
             (recv,) = ops
             upd = copy.deepcopy(case["upd"])
